@@ -412,6 +412,11 @@ func runColdStart(r *runner, work *choice.Source) (fs []Finding) {
 	sticky := work.Intn(4)
 	r.st.Workers = workers
 	r.st.Desc = fmt.Sprintf("coldstart callers=%v workers=%d", ops, workers)
+	for _, op := range ops {
+		if op == 1 || op == 3 {
+			r.st.MapDep = "mcSearch/msSearch walk Mesh.VertexSlice(), whose order is the iteration order of the vertex index (a Go map)"
+		}
+	}
 	exec := func(op int) string {
 		switch op {
 		case 0:
